@@ -48,7 +48,7 @@ def main():
             print(out)
             return 2
         env = dict(os.environ, PYTHONPATH=wt + os.pathsep + "/tmp/shims_eval", PYTHONDONTWRITEBYTECODE="1", QAPTOOLS_BIN=os.path.join(ROOT, "shims", "qaptools-bin"))
-        env["PYTHONPATH"] = wt + os.pathsep + os.path.join(ROOT, "shims")
+        env["PYTHONPATH"] = wt        # exactly the environment the demonstration was written for
         demo = os.path.join(seed, "demo.py")
         shutil.copy(demo, os.path.join(wt, "demo.py"))
         for extra in os.listdir(seed):
